@@ -46,7 +46,7 @@ void h_grow(void) {
 }
 
 /* C19/C17: file entry point against the in-memory one (asm_assemble_str by contract) */
-#define OS_GHOST_INIT g_fault = 0; g_munmap_calls = 0; g_munmap_len = 0; g_munmap_ptr = 0; g_map_size = 0; g_inner_rc = -1; \
+#define OS_GHOST_INIT g_inner_kind = 0; g_inner_calls = 0; g_inner_chunk = 0; g_inner_dest = 0; g_fault = 0; g_munmap_calls = 0; g_munmap_len = 0; g_munmap_ptr = 0; g_map_size = 0; g_inner_rc = -1; \
   g_fwrite_calls = 0; g_fwrite_ptr = 0; g_fwrite_size = 0; g_fwrite_n = 0; g_fwrite_ret = 0; g_fclose_ret = -2; g_fopen_ok = 0; g_mremap_ok = 0;
 #define FILE_COMMON OS_GHOST_INIT \
   struct assemblyline A; assemblyline_t al = &A; char *name; \
@@ -68,9 +68,11 @@ void h_grow(void) {
   if (rc == EXIT_SUCCESS) REACH("file success"); else REACH("file failure");
 void h_assemble_file(void) { FILE_COMMON
   int rc = asm_assemble_file(al, name);
+  if (g_inner_calls) CHECK(g_inner_calls == 1 && g_inner_kind == 1, "asm_assemble_file assembles the contents with asm_assemble_str, once (same mode and options as the in-memory call)");
   FILE_POST(rc) }
 void h_assemble_file_counting(void) { FILE_COMMON int c; int dv; int *d = &dv;
   int rc = asm_assemble_file_counting_chunks(al, name, c, d);
+  if (g_inner_calls) CHECK(g_inner_calls == 1 && g_inner_kind == 2 && g_inner_chunk == c && g_inner_dest == d, "the counting file call assembles the contents with asm_assemble_string_counting_chunks, once, with the same chunk size and result pointer");
   FILE_POST(rc) }
 
 /* C19/C17: binary output */
@@ -113,9 +115,14 @@ void h_assemble_internal(void) { OS_GHOST_INIT
 /* C08: the counting and the fitting step on the library-managed buffer (chunk size symbolic: the
  * claims here do not depend on the chunk arithmetic).  The fitting step checks room again after
  * padding; every write must go through the buffer pointer re-read after that check. */
+#ifdef FITN
+#define INTERNAL_N_OK(n) ((n) == FITN)    /* the library-managed buffer has length 20 + 6000 k */
+#else
+#define INTERNAL_N_OK(n) ((n) >= BUFFER_TOLERANCE && (n) <= 20000)
+#endif
 #define INTERNAL_COMMON OS_GHOST_INIT \
   struct assemblyline A; assemblyline_t al = &A; struct instr I; unsigned p; \
-  int n; __CPROVER_assume(n >= BUFFER_TOLERANCE && n <= 60000); \
+  int n; __CPROVER_assume(INTERNAL_N_OK(n)); \
   A.external = 0; A.buffer_len = n; A.buffer = malloc(n); __CPROVER_assume(A.buffer != NULL); A.debug = 0; \
   __CPROVER_assume(A.chunk_size >= 2); \
   __CPROVER_assume(p <= (unsigned)n && rec_inv(&I)); __CPROVER_assume(1 <= g_asm_len && g_asm_len <= BUFFER_TOLERANCE); \
